@@ -1305,6 +1305,19 @@ class SymEx:
                 return [(st, CallV('raise', [Opaque('pop from empty list')]))]
             if name == 'copy':
                 return [(st, ListV(recv.items, recv.tuple_))]
+            if name in ('add', 'update') and args:       # a set, kept as a list without duplicates
+                new = [args[0]] if name == 'add' else self.as_sequence(args[0])
+                if new is not None:
+                    for x in new:
+                        if not any(values_equal(x, y) is True for y in recv.items):
+                            recv.items.append(x)
+                    return [(st, Const(None))]
+            if name in ('discard', 'remove') and args:
+                recv.items[:] = [y for y in recv.items if values_equal(args[0], y) is not True]
+                return [(st, Const(None))]
+            if name == 'clear':
+                del recv.items[:]
+                return [(st, Const(None))]
             if name == 'reverse':
                 recv.items.reverse()
                 return [(st, Const(None))]
